@@ -170,7 +170,39 @@ def is_neutral(e):
     return all(is_neutral(x) for x in e)
 
 
-def render_item(it, ctx, lang):
+def strip_outer(s):
+    """Remove one pair of outermost parentheses when they enclose the whole expression text (users rarely parenthesise a whole clause)."""
+    if len(s) < 2 or s[0] != '(' or s[-1] != ')':
+        return s
+    depth = 0
+    quote = None
+    i = 0
+    while i < len(s):
+        c = s[i]
+        if quote:
+            if c == '\\':
+                i += 2
+                continue
+            if c == quote:
+                quote = None
+        elif c in '"\'':
+            quote = c
+        elif c == '(':
+            depth += 1
+        elif c == ')':
+            depth -= 1
+            if depth == 0 and i != len(s) - 1:
+                return s
+        i += 1
+    return s[1:-1] if depth == 0 and quote is None else s
+
+
+def render_top(e, ctx, lang, bare):
+    s = render_expr(e, ctx, lang)
+    return strip_outer(s) if bare else s
+
+
+def render_item(it, ctx, lang, bare=False):
     k = it['kind']
     if k == 'star':
         s = '*'
@@ -179,11 +211,11 @@ def render_item(it, ctx, lang):
     elif k == 'bstar':
         s = 'b.*'
     elif k == 'expr':
-        s = render_expr(it['expr'], ctx, lang)
+        s = render_top(it['expr'], ctx, lang, bare)
     elif k == 'unnest':
         s = '%s(%s)' % (it.get('spelling', 'UNNEST'), render_expr(it['expr'], ctx, lang))
     elif k == 'agg':
-        arg = '*' if it['arg'] == '*' else render_expr(it['arg'], ctx, lang)
+        arg = '*' if it['arg'] == '*' else render_top(it['arg'], ctx, lang, bare)
         s = '%s(%s)' % (it.get('spelling', it['func']), arg)
     else:
         raise ValueError(k)
@@ -206,6 +238,7 @@ def render_join(j, ctx):
 def clauses(q, ctx, lang):
     """-> (head clause text, [other clause texts]) in canonical order."""
     other = []
+    bare = bool(q.get('bare'))
     if q['kind'] == 'select':
         head = 'SELECT'
         if q.get('top') is not None and q.get('top_kw', 'top') == 'top':
@@ -217,20 +250,20 @@ def clauses(q, ctx, lang):
         if q.get('except') is not None:
             head += ' *'
         else:
-            head += ' ' + ', '.join(render_item(it, ctx, lang) for it in q['items'])
+            head += ' ' + ', '.join(render_item(it, ctx, lang, bare) for it in q['items'])
     else:
-        head = 'UPDATE ' + ', '.join('%s = %s' % (render_field(f, ctx), render_expr(e, ctx, lang)) for f, e in q['assign'])
+        head = 'UPDATE ' + ', '.join('%s = %s' % (render_field(f, ctx), render_top(e, ctx, lang, bare)) for f, e in q['assign'])
     if q.get('except') is not None:
         other.append('EXCEPT ' + ', '.join(render_field(f, ctx) for f in q['except']))
     if q.get('join'):
         other.append(render_join(q['join'], ctx))
     if q.get('where') is not None:
-        other.append('WHERE ' + render_expr(q['where'], ctx, lang))
+        other.append('WHERE ' + render_top(q['where'], ctx, lang, bare))
     if q.get('group'):
-        other.append('GROUP BY ' + ', '.join(render_expr(e, ctx, lang) for e in q['group']))
+        other.append('GROUP BY ' + ', '.join(render_top(e, ctx, lang, bare) for e in q['group']))
     if q.get('order'):
         o = q['order']
-        s = 'ORDER BY ' + ', '.join(render_expr(e, ctx, lang) for e in o['keys'])
+        s = 'ORDER BY ' + ', '.join(render_top(e, ctx, lang, bare) for e in o['keys'])
         if o.get('desc'):
             s += ' DESC'
         elif o.get('asc_kw'):
